@@ -306,4 +306,13 @@ example : render 1 2 none (some 50) [(bytes "a", bytes "b")] = bytes "text/html;
 example : parse (bytes "text/html; q=1.5") = .error .unsupported := by decide +kernel
 example : parse (bytes "text/html;") = .error .unsupported := by decide +kernel
 
+/-- T9 (not-a-number and infinite quality values): whatever spelling strtod converts to an infinity or a NaN ("inf",
+    "Infinity", "nan", "NaN(…)", signed or not) is rejected as a quality value: it lies in no range. -/
+theorem nonfinite_quality_rejected (s : Bytes) (h : Num.strtod s = .nonfinite) : parseQ s = .bad := by
+  simp [parseQ, h]
+
+example : parseQ (bytes "nan") = .bad := by decide
+example : parseQ (bytes "-Infinity; a=b") = .bad := by decide
+example : parseQ (bytes " NaN(7)") = .bad := by decide
+
 end Pistache.Mime.Props
